@@ -227,7 +227,7 @@ FORMULAS = {
     "C02": ["C02_AtMostOne", "C02_Identity", "C02_KeyRoundTrip", "C02_Requested", "C02_Served", "C02_SharedCacheIntact"],
     "C03": ["C03_" + x for x in _PASS],
     "C14": ["C14_Expansion", "C14_Deterministic", "C14_Admission", "C14_DistinctIdentity", "C14_OwnVariables"],
-    "C16": ["C16_PatchFaithful", "C16_Defaults", "C16_Idempotent", "C16_ConfigName", "C16_Precedence", "C16_LastUpdated"],
+    "C16": ["C16_PatchFaithful", "C16_Defaults", "C16_Idempotent", "C16_ConfigName", "C16_Precedence", "C16_LastUpdated", "C16_SharedCacheIntact"],
     "C17": ["C17_Immutable", "C17_Processable"],
     "C18": ["C18_Eval", "C18_DefaultAgrees", "C18_Deterministic", "C18_Subst"],
     "C19": ["C19_Layering", "C19_LKG"],
